@@ -46,6 +46,47 @@ def _stmt_sig(st):
     return '%s:%s' % (st.kind, st.table)
 
 
+def helper_roles(ctx):
+    """Private helpers of Cache found by what they do: {'cull': per-write cull helper, 'bulk': bulk deleter}."""
+    out = {}
+    methods = ctx.prog.classes['Cache'].methods
+    for f in methods.values():
+        if 'sql' in f.params and 'cleanup' in f.params and not f.is_contextmanager and f.name.startswith('_'):
+            out['cull'] = f
+    for f in methods.values():
+        if not f.name.startswith('_') or f.name.startswith('__') or f is out.get('cull') or f.is_property:
+            continue
+        texts = [n.value for n in ast.walk(f.node) if isinstance(n, ast.Constant) and isinstance(n.value, str)]
+        for n in ast.walk(f.node):
+            if isinstance(n, ast.Name) and n.id in ctx.prog.modules[f.module].consts:
+                try:
+                    v = ctx.fold(n, f.module)
+                except ValueError:
+                    continue
+                if isinstance(v, str):
+                    texts.append(v)
+        deletes = any(t.strip().upper().startswith('DELETE FROM CACHE') for t in texts)
+        forwards = any(isinstance(n, ast.Call) and n.args and isinstance(n.args[0], ast.Name)
+                       and n.args[0].id in f.params for n in ast.walk(f.node))
+        if deletes and forwards:
+            out['bulk'] = f
+    return out
+
+
+def bind_roles(ctx, template):
+    """Role table keyed by qualified name with the '<cull>' / '<bulk>' placeholders bound to the discovered helpers."""
+    hr = helper_roles(ctx)
+    out = {}
+    for k, v in template.items():
+        if k.startswith('<'):
+            f = hr.get(k[1:-1])
+            if f is not None:
+                out[f.qual] = v
+        else:
+            out[k] = v
+    return out
+
+
 def _forwarder(ev, ctx):
     """SQL call whose statement is a parameter of a closure of the retry property."""
     rp = ctx.prog.roles.get('sql_retry_prop')
@@ -500,6 +541,11 @@ def layer_breaks(prog, module, tree, roles=None):
     priv = set(PRIVATE_STORAGE_ATTRS)
     if roles:
         priv |= {f.name for k, f in roles.items() if k != 'public_transact'}
+    for cname in ('Cache', 'Disk'):
+        ci = prog.classes.get(cname)
+        if ci is not None:
+            priv |= {n for n, f in ci.methods.items() if n.startswith('_') and not n.startswith('__')
+                     and not f.is_property}
 
     def visit(node, qual):
         for child in ast.iter_child_nodes(node):
